@@ -279,8 +279,9 @@ def gen_client(rng, cfg, cname, shadow_pw):
             raw = startup_pkt(sparams, code=rng.choice([0, 1, 196609, 196607, 80877104, 131072, -1]))
         elif b == "cancel":
             raw = struct.pack(">iiii", 16, 80877102, rng.getrandbits(31), rng.getrandbits(31))
-        elif b == "short":
+        elif b == "short":                        # a prefix of the packet, then EOF (later bytes would complete it)
             raw = good[:rng.randint(1, len(good) - 1)]
+            nopost = True
         elif b == "ssl":
             raw = struct.pack(">ii", 8, 80877103) + good
             st["ssl_byte"] = True
@@ -325,6 +326,11 @@ def gen_client(rng, cfg, cname, shadow_pw):
             raw = startup_pkt([app, (b"database", dbb), (b"user", ub)])
     if raw is None:
         raw = startup_pkt(sparams)
+    # pgcat legitimately keeps waiting for bytes in these cases: do not wait long for an answer that cannot come.
+    # Everywhere else the client waits generously (a loaded machine must not look like a silent pgcat); the
+    # comparison itself is timing-independent (the model gets exactly the bytes that were sent, in order).
+    blocking = desc in ("edit:len_plus", "edit:len_huge", "edit:partial", "edit:silent", "edit:halflen", "badstartup:huge", "badstartup:short", "edit:len_min")
+    st["timeout_ms"] = 300 if blocking else 3000
     st["raw_startup"] = raw.hex()
     st["auth_user"] = auth_user
     st["password"] = pw
@@ -380,7 +386,7 @@ def build_scenario(rng, idx, quick, tls=False):
             steps.append({"op": "recv", "c": cname, "until": "Z", "count": 1, "timeout_ms": 250})
         steps.append({"op": "close", "c": cname})
         finished[0] += 1
-        steps.append({"op": "wait_tasks", "n": finished[0], "label": cname, "timeout_ms": 4000})
+        steps.append({"op": "wait_tasks", "n": finished[0], "label": cname, "timeout_ms": 8000})
         cl["task_index"] = finished[0] - 1
         meta.append(cl)
 
@@ -615,6 +621,15 @@ def observe(sc, res):
                 o["sent"] += bytes.fromhex(e.get("hex") or "")
             elif e["ev"] == "recv":
                 o["drain"].append(e)
+                for f in e["frames"]:
+                    if f.get("t") == "R" and f.get("auth") == 5 and not o["salt"]:
+                        o["salt"] = bytes.fromhex(f["salt"])      # the challenge arrived after the connect step gave up waiting
+                if not o["auth_ok"] and any(f.get("t") == "R" and f.get("auth") == 0 for f in e["frames"]):
+                    # the startup only completed with the bytes of the later `send` step: AuthenticationOk arrived here
+                    o["auth_ok"] = True
+                    o["frames"] = o["frames"] + e["frames"]
+                    o["late"] = True
+                    o["seq1"] = e["seq"]
         if who not in ("b0", "bdown"):
             last_front = e.get("seq", last_front)
     tasks = res.get("task_results", [])
@@ -784,7 +799,8 @@ def check_scenario(run, sc, res, mres, stats):
                 probs.append(("monitor", "bytes of the refused client %s reached backend %s: %s" % (mk, e["who"], blob[:200]),
                               {"monitor": "no client bytes to servers before admission", "scenario": sc["scn"], "backend_event": e}))
         if e["ev"] == "msg":
-            ok = e["tag"] == "X" or (e["tag"] == "Q" and e["detail"].get("sql") in aq_sqls) or any(mk in blob for mk in admitted_markers)
+            own = aq_sqls | {"SET application_name TO 'pgcat';"}       # constant texts pgcat itself originates
+            ok = e["tag"] == "X" or (e["tag"] == "Q" and e["detail"].get("sql") in own) or any(mk in blob for mk in admitted_markers)
             if not ok:
                 probs.append(("monitor", "backend %s received a message that is neither pgcat's own (auth_query, Terminate) nor tagged by an admitted client: %s" % (e["who"], blob[:200]),
                               {"monitor": "backend traffic attribution", "scenario": sc["scn"], "backend_event": e}))
